@@ -150,6 +150,9 @@ def rule_order(ctx):
             pb = [chain(x) for x in b[1]]
             ok = [p[1] for p in pa] == [["version"], ["timestamp"]] and [p[1] for p in pb] == [["version"], ["timestamp"]] and pa[0][0] == pa[1][0] and pb[0][0] == pb[1][0] and pa[0][0] != pb[0][0] \
                 and pa[0][0][0] == "param" and pa[0][0][1] == 1 and pb[0][0][1] == 2
+    if not ok and t is not None and t[0] == "call" and t[1].startswith("std::cmp::PartialOrd::") and len(t[2]) == 2 and t[2][0][0] == "tuple" and t[2][1][0] == "tuple":
+        ctx.ob(R, "is_newer term", False, "is_newer compares the (version, timestamp) tuples with `%s` / in another field order instead of strictly greater: %s" % (t[1].rsplit("::", 1)[1], show(t)[:120]), f.loc())
+        return
     if not ok:
         # any other shape: evaluate the returned value under the 9 orderings of (version, timestamp)
         def side(t, fld):
